@@ -8,7 +8,10 @@
 (* first position >= cursor at which an attempt succeeds, and moves the    *)
 (* cursor to the end of a non-empty match and one character past an empty  *)
 (* one (the lastIndex rule); when no position is left it returns None and   *)
-(* stays there.                                                            *)
+(* stays there.  (The code keeps its position when a search finds nothing  *)
+(* and repeats that search when polled again, with the same outcome: the   *)
+(* same observable behaviour; MCVM's Repoll step follows the code there,   *)
+(* and Search.tla refines FirstFrom into prefix-search and attempt steps.) *)
 (***************************************************************************)
 EXTENDS Naturals, Integers, Sequences
 
